@@ -66,7 +66,7 @@ fn random_oracle(c: &C13Case, info: &mut Case) -> Result<(), String> {
     let mut evictions = false;
     for (bi, b) in c.batches.iter().enumerate() {
         let before = cache.num_items().unwrap_or(0);
-        let r = run_batch(&cache, capacity, &b.threads, &b.schedule, c.evict_seed ^ bi as u64);
+        let r = run_batch(&cache, Some(capacity), &b.threads, &b.schedule, c.evict_seed ^ bi as u64);
         if let Some(v) = r.violation {
             return Err(v);
         }
@@ -159,14 +159,14 @@ fn run_exhaustive_one(sc: &Scenario, schedule: &[u8]) -> Result<(Vec<usize>, boo
     let root = tmp.path().join("cache");
     let cache = open(&root, sc.capacity).map_err(|e| format!("[sig:c13-initialize] {e}"))?;
     for op in &sc.pre {
-        crate::cachex::apply(&cache, op, sc.capacity)?;
+        crate::cachex::apply(&cache, op, Some(sc.capacity))?;
     }
     if sc.delete_after_pre {
         for (dir, name, _) in crate::cachex::list_files(&root) {
             let _ = std::fs::remove_file(root.join(dir).join(name));
         }
     }
-    let r = run_batch(&cache, sc.capacity, &sc.threads, schedule, 42);
+    let r = run_batch(&cache, Some(sc.capacity), &sc.threads, schedule, 42);
     if let Some(v) = r.violation {
         return Err(format!("{v} (scenario '{}', grants {:?})", sc.name, r.trace));
     }
